@@ -324,7 +324,10 @@ for _pid in ("C03", "C04", "C01"):
 
 _c05b = PROPS["C05"]["shards"]
 PROPS["C05"]["shards"] = lambda tier, seed, search=False: _c05b(tier, seed, search) + fs_shards(["putverwide"])
-PROPS["C05"]["rule"] = PROPS["C05"]["rule"] + "; plus one save traced under strace on a database file that exists with mode 0644 (every mode given to open or chmod must be 0600)"
+_c05c = PROPS["C05"]["shards"]
+PROPS["C05"]["shards"] = lambda tier, seed, search=False: _c05c(tier, seed, search) + [
+    Shard("dbtime", ["-seed", str(s), "-n", "6" if tier == "quick" else "40", "-steps", "25"], driver="crypto", binary="storetrace") for s in seeds(seed, 2 if tier == "quick" else 6)]
+PROPS["C05"]["rule"] = PROPS["C05"]["rule"] + "; plus one database living through months and years of virtual time (testing/synctest) with the key service unreachable once it is open: key uses per call, answers, reopen of a copy; plus one save traced under strace on a database file that exists with mode 0644 (every mode given to open or chmod must be 0600)"
 
 for _pid in ("C13", "C19"):
     PROPS[_pid]["race"] = True
